@@ -8,6 +8,7 @@ import (
 	"github.com/lidofinance/dc4bc/fsm/fsm"
 	"github.com/lidofinance/dc4bc/fsm/state_machines"
 	"github.com/lidofinance/dc4bc/internal/vf"
+	"github.com/lidofinance/dc4bc/storage"
 )
 
 // VF_C08_Determinism: params abs, event, permute ("1": node B handles the message under every map iteration order).
@@ -104,6 +105,7 @@ func VF_C08_Interleave() {
 		}
 		_ = e.fsm.SaveFSM("round", dump)
 		var keep vfSnap
+		othersBefore := 1
 		if interleaved {
 			_ = e.fsm.SaveFSM("other", otherDump)
 			pend := types.NewOperation("other", leftover("pending"), fsm.State(vf.Str("other.pending.type")))
@@ -111,7 +113,22 @@ func VF_C08_Interleave() {
 			if e.ops.PutOperation(pend) != nil || e.ops.PutOperation(done) != nil || e.ops.DeleteOperation(done) != nil {
 				vf.Stop() // the two leftovers coincide: not a second operation
 			}
+			// ... and this very process has just handled the other round's message with the SAME message id, event, payload
+			// and signature (a board may carry the same id in two rounds; whatever the node remembers about it in memory
+			// must not matter for this round)
+			if vf.Param("prior") != "" {
+				_ = e.node.ProcessMessage(storage.Message{ID: msg.ID, DkgRoundID: "other", Event: msg.Event, Data: msg.Data,
+					Signature: msg.Signature, SenderAddr: msg.SenderAddr})
+			}
 			keep = vfTake(e, []string{"other"})
+			othersBefore = 0
+			if ops, err := e.ops.GetOperations(); err == nil {
+				for _, o := range ops {
+					if o.DKGIdentifier == "other" {
+						othersBefore++
+					}
+				}
+			}
 		}
 		perr := e.node.ProcessMessage(msg)
 		untouched := true
@@ -125,7 +142,7 @@ func VF_C08_Interleave() {
 					cnt++
 				}
 			}
-			untouched = untouched && cnt == 1
+			untouched = untouched && cnt == othersBefore
 		}
 		p := vfPublicState(e, n)
 		for id, o := range p.Ops {
